@@ -1241,11 +1241,19 @@ def run(ctx):
     ]
     if not ok:
         return
+    if ctx.tier == "thorough":
+        # independent checker on the property module and everything it depends on
+        with core.Lock(core.COQ / ".lock"):
+            rc, out = core.sh(["coqchk", "-silent", "-o", "-R", ".", "FR", "props/C05.vo"], cwd=str(core.COQ), timeout=1500)
+        ctx.coverage["trusted_base"].append("coqchk -silent -o props/C05.vo (rc=%d): %s" % (rc, " ".join(out.split())[-420:]))
+        if rc != 0 or "Axioms: <none>" not in out:
+            ctx.violation("coqchk does not accept props/C05.vo or reports axioms", dict(kind="coqchk", log=out[-3000:]), no_input=True)
+            return
     world = World()
     names = all_typenames()
     rnd = random.Random(ctx.seed)
     quick = ctx.tier == "quick"
-    cases = single_cases(world, names) + random_cases(world, names, rnd, 250 if quick else 3000)
+    cases = single_cases(world, names) + random_cases(world, names, rnd, 250 if quick else 12000)
     reported, terms, metas = evaluate(ctx, world, cases, kf)
     if not reported:
         range_sweep(ctx)
